@@ -400,6 +400,19 @@ impl Prop for C01 {
     }
 
     fn check(c: &Case, obs: &mut Obs) {
+        // history round (core::history_round): the same inputs with `graphemes` flipped in between
+        if history_round(
+            c,
+            obs,
+            |c| {
+                let mut v = c.clone();
+                v.graphemes = !v.graphemes;
+                v
+            },
+            Self::check,
+        ) {
+            return;
+        }
         let is_byte = c.kind == "byte";
         let mut members: HashSet<&str> = c.spec.tokens.iter().map(|s| s.as_str()).collect();
         if !is_byte {
